@@ -26,7 +26,7 @@ RULE = ("TLC behaviours of Gen_CalcEnv (environment transition cover) bound by s
 
 
 def make_P(ctx):
-    return cc.make_P(ctx, CFG, UNIVERSES, nontrivial, RULE, design=False, env={"VERIF_FRESH": "none"}, quick_beh=200, n_random=(200, 4000),
+    return cc.make_P(ctx, CFG, UNIVERSES, nontrivial, RULE, design=False, env={"VERIF_FRESH": "none", "VERIF_WINDOWS": "most"}, quick_beh=200, n_random=(360, 4000),
                      assumptions=["policies naming a tier that does not exist: the statement orders *existing* tiers only, so the position of such a "
                                   "tier group is not judged (the code puts it last); that its policies are listed is required (their selector matches)",
                                   "tie-break: the statement says (order, name); policies equal in both may appear in either order"])
